@@ -11,7 +11,43 @@
 #include <sys/socket.h>
 #include <sys/syscall.h>
 #include <sys/un.h>
+#include <dirent.h>
+#include <stdint.h>
 extern char verif_cfgpath[4096];
+#ifdef VERIF_HEAPTRACK
+#include <stdio.h>
+/* Heap accounting of SNOOPY'S OWN allocations: the link uses -Wl,--wrap=malloc,... so only calls made from the objects of
+ * this executable (snoopy's sources and the harness) are seen; libc-internal allocations (NSS, stdio, locale caches) are not. */
+extern void *__real_malloc(size_t), *__real_calloc(size_t, size_t), *__real_realloc(void *, size_t);
+extern void __real_free(void *);
+extern char *__real_strdup(const char *), *__real_strndup(const char *, size_t);
+extern ssize_t __real_getline(char **, size_t *, FILE *);
+#define HT_N 65536
+static void *ht_ptr[HT_N]; static size_t ht_sz[HT_N];
+static volatile int ht_on = 0; static long ht_live = 0, ht_bytes = 0, ht_allocs = 0;
+static void ht_add(void *p, size_t n) {
+    if (!ht_on || !p) return;
+    size_t h = ((uintptr_t)p >> 4) % HT_N;
+    for (size_t i = 0; i < HT_N; i++) { size_t k = (h + i) % HT_N; if (!ht_ptr[k] || ht_ptr[k] == (void *)1) { ht_ptr[k] = p; ht_sz[k] = n; ht_live++; ht_bytes += n; ht_allocs++; return; } }
+}
+static void ht_del(void *p) {
+    if (!p) return;
+    size_t h = ((uintptr_t)p >> 4) % HT_N;
+    for (size_t i = 0; i < HT_N; i++) { size_t k = (h + i) % HT_N; if (!ht_ptr[k]) return; if (ht_ptr[k] == p) { ht_ptr[k] = (void *)1; ht_live--; ht_bytes -= ht_sz[k]; return; } }
+}
+void *__wrap_malloc(size_t n) { void *p = __real_malloc(n); ht_add(p, n); return p; }
+void *__wrap_calloc(size_t a, size_t b) { void *p = __real_calloc(a, b); ht_add(p, a * b); return p; }
+void *__wrap_realloc(void *q, size_t n) { ht_del(q); void *p = __real_realloc(q, n); ht_add(p, n); return p; }
+void __wrap_free(void *p) { ht_del(p); __real_free(p); }
+char *__wrap_strdup(const char *s) { char *p = __real_strdup(s); ht_add(p, p ? strlen(p) + 1 : 0); return p; }
+char *__wrap_strndup(const char *s, size_t n) { char *p = __real_strndup(s, n); ht_add(p, p ? strlen(p) + 1 : 0); return p; }
+ssize_t __wrap_getline(char **l, size_t *n, FILE *f) { void *old = *l; ssize_t r = __real_getline(l, n, f); if (*l != old) { ht_del(old); ht_add(*l, *n); } return r; }
+#endif
+static int fd_table(char *out, size_t cap) { /* "n:target;" for every open descriptor; raw getdents-free: uses opendir, so call outside the heap window */
+    DIR *d = opendir("/proc/self/fd"); if (!d) return -1; int dfd = dirfd(d); struct dirent *e; size_t o = 0; int n = 0; out[0] = 0;
+    while ((e = readdir(d))) { if (e->d_name[0] == '.') continue; int fd = atoi(e->d_name); if (fd == dfd) continue; char l[64], t[256]; snprintf(l, sizeof l, "/proc/self/fd/%d", fd); ssize_t r = readlink(l, t, sizeof t - 1); if (r < 0) r = 0; t[r] = 0; if (!strncmp(t, "socket:", 7)) strcpy(t, "socket"); o += snprintf(out + o, cap - o, "%d:%s;", fd, t); n++; }
+    closedir(d); return n;
+}
 typedef int (*verif_rec_cb_t)(int, const char *, char *const[], char *const[]);
 extern verif_rec_cb_t verif_rec_cb;
 static int rec_calls;
@@ -35,14 +71,22 @@ int main(int argc, char **argv) {
     verif_rec_cb = cb;
     if (uid) { setgroups(0, NULL); if (setresgid(uid, uid, uid) || setresuid(uid, uid, uid)) { perror("setres"); return 3; } }
     char *av[] = { "prog", "arg one", "two", NULL }; char *ev[] = { "A=1", "LOGNAME=someone", NULL };
-    int ok = 1, lastret = 0, lasterr = 0;
+    int ok = 1, lastret = 0, lasterr = 0; static char fds0[8192], fds1[8192]; long heapd[8] = {0}; int fdleak[8] = {0};
     for (int i = 0; i < n; i++) {
+        fd_table(fds0, sizeof fds0);
+#ifdef VERIF_HEAPTRACK
+        long l0 = ht_live; ht_on = 1;
+#endif
         if (write(-1, "VERIF:BEGIN", 11) < 0) {}
         errno = 0;
         int r = execve("/some/dir/prog", av, ev); int e = errno;
         if (write(-1, "VERIF:END", 9) < 0) {}
+#ifdef VERIF_HEAPTRACK
+        ht_on = 0; if (i < 8) heapd[i] = ht_live - l0;
+#endif
+        fd_table(fds1, sizeof fds1); if (i < 8) fdleak[i] = strcmp(fds0, fds1) != 0;
         lastret = r; lasterr = e; if (r != -1 || e != ENOENT) ok = 0;
     }
-    FILE *f = fopen(argv[2], "w"); if (f) { fprintf(f, "{\"rec_calls\":%d,\"ret\":%d,\"errno\":%d,\"ok\":%d}\n", rec_calls, lastret, lasterr, ok && rec_calls == n); fclose(f); }
+    FILE *f = fopen(argv[2], "w"); if (f) { fprintf(f, "{\"rec_calls\":%d,\"ret\":%d,\"errno\":%d,\"ok\":%d,\"heap_delta\":[%ld,%ld,%ld],\"fd_table_changed\":[%d,%d,%d],\"fds_after\":\"%s\"}\n", rec_calls, lastret, lasterr, ok && rec_calls == n, heapd[0], heapd[1], heapd[2], fdleak[0], fdleak[1], fdleak[2], fds1); fclose(f); }
     return 0;
 }
